@@ -169,6 +169,10 @@ type AtomicCase struct {
 	PerBatch     []int `json:"per_batch"`
 	Readers      int   `json:"readers"`
 	ReadTxn      bool  `json:"read_txn"` // readers use a read-only transaction with one range op per key instead of one range read
+	// Predicates: readers use a read-only transaction WITH predicates over the flag pair fa/fb (exactly one of them is "1" in every
+	// committed state): [fa == 1, <range predicate over the group>, fb == 1] can never hold, and "fa == 1 ? read fa : read fa" must
+	// return a value consistent with the branch taken.
+	Predicates bool `json:"predicates"`
 }
 
 func genAtomic(t *rapid.T) AtomicCase {
@@ -178,6 +182,7 @@ func genAtomic(t *rapid.T) AtomicCase {
 		Keys:         rapid.IntRange(2, 5).Draw(t, "keys"),
 		Readers:      rapid.IntRange(1, 4).Draw(t, "readers"),
 		ReadTxn:      rapid.Bool().Draw(t, "readtxn"),
+		Predicates:   rapid.IntRange(0, 2).Draw(t, "predicates") == 0,
 	}
 	for i := 0; i < n; i++ {
 		c.Forms = append(c.Forms, rapid.IntRange(0, 4).Draw(t, "form"))
@@ -197,10 +202,18 @@ func stampCmd(c AtomicCase, stamp int) *regattapb.Command {
 	val := []byte(fmt.Sprintf("s%04d", stamp))
 	prev := []byte(fmt.Sprintf("s%04d", stamp-1))
 	cmd := &regattapb.Command{Table: []byte("t")}
+	fa, fb := []byte("0"), []byte("1")
+	if stamp%2 == 1 {
+		fa, fb = []byte("1"), []byte("0")
+	}
+	flagKVs := []*regattapb.KeyValue{{Key: []byte("fa"), Value: fa}, {Key: []byte("fb"), Value: fb}}
 	puts := func() []*regattapb.RequestOp {
 		var ops []*regattapb.RequestOp
 		for k := 0; k < c.Keys; k++ {
 			ops = append(ops, &regattapb.RequestOp{Request: &regattapb.RequestOp_RequestPut{RequestPut: &regattapb.RequestOp_Put{Key: groupKey(k), Value: val}}})
+		}
+		for _, kv := range flagKVs {
+			ops = append(ops, &regattapb.RequestOp{Request: &regattapb.RequestOp_RequestPut{RequestPut: &regattapb.RequestOp_Put{Key: kv.Key, Value: kv.Value}}})
 		}
 		return ops
 	}
@@ -219,10 +232,14 @@ func stampCmd(c AtomicCase, stamp int) *regattapb.Command {
 		for k := 0; k < c.Keys; k++ {
 			cmd.Batch = append(cmd.Batch, &regattapb.KeyValue{Key: groupKey(k), Value: val})
 		}
+		cmd.Batch = append(cmd.Batch, flagKVs...)
 	case 3:
 		cmd.Type = regattapb.Command_SEQUENCE
 		for k := 0; k < c.Keys; k++ {
 			cmd.Sequence = append(cmd.Sequence, &regattapb.Command{Table: []byte("t"), Type: regattapb.Command_PUT, Kv: &regattapb.KeyValue{Key: groupKey(k), Value: val}})
+		}
+		for _, kv := range flagKVs {
+			cmd.Sequence = append(cmd.Sequence, &regattapb.Command{Table: []byte("t"), Type: regattapb.Command_PUT, Kv: kv})
 		}
 	default:
 		cmd.Type = regattapb.Command_TXN
@@ -244,7 +261,54 @@ func runAtomic(c AtomicCase, o *vt.Obs) *vt.Failure {
 	var fail *vt.Failure
 	seen := map[string]bool{}
 	observations := 0
+	rd := func(k string) *regattapb.RequestOp {
+		return &regattapb.RequestOp{Request: &regattapb.RequestOp_RequestRange{RequestRange: &regattapb.RequestOp_Range{Key: []byte(k)}}}
+	}
+	one := &regattapb.Compare_Value{Value: []byte("1")}
+	valOf := func(op *regattapb.ResponseOp) string {
+		if kvs := op.GetResponseRange().GetKvs(); len(kvs) == 1 {
+			return string(kvs[0].Value)
+		}
+		return ""
+	}
+	predicateRead := func() error {
+		// (1) a conjunction that holds in no committed state
+		never := &regattapb.TxnRequest{Table: []byte("t"), Compare: []*regattapb.Compare{
+			{Key: []byte("fa"), Result: regattapb.Compare_EQUAL, TargetUnion: one},
+			{Key: []byte("g"), RangeEnd: []byte("h"), Result: regattapb.Compare_NOT_EQUAL, TargetUnion: &regattapb.Compare_Value{Value: []byte("never")}},
+			{Key: []byte("fb"), Result: regattapb.Compare_EQUAL, TargetUnion: one},
+		}, Success: []*regattapb.RequestOp{rd("fa"), rd("fb")}, Failure: []*regattapb.RequestOp{rd("fa"), rd("fb")}}
+		resp, err := r.Txn(never)
+		if err != nil {
+			return err
+		}
+		if resp.Succeeded {
+			return fmt.Errorf("predicates fa==1 AND fb==1 both held although exactly one flag is 1 in every committed state")
+		}
+		if a, b := valOf(resp.Responses[0]), valOf(resp.Responses[1]); a != "" && a == b {
+			return fmt.Errorf("reads of one transaction show fa=%q fb=%q, no committed state has equal flags", a, b)
+		}
+		// (2) branch and reads must agree
+		branch := &regattapb.TxnRequest{Table: []byte("t"), Compare: []*regattapb.Compare{
+			{Key: []byte("fa"), Result: regattapb.Compare_EQUAL, TargetUnion: one},
+			{Key: []byte("g"), RangeEnd: []byte("h"), Result: regattapb.Compare_NOT_EQUAL, TargetUnion: &regattapb.Compare_Value{Value: []byte("never")}},
+		}, Success: []*regattapb.RequestOp{rd("fa")}, Failure: []*regattapb.RequestOp{rd("fa")}}
+		resp, err = r.Txn(branch)
+		if err != nil {
+			return err
+		}
+		a := valOf(resp.Responses[0])
+		if a != "" && resp.Succeeded != (a == "1") {
+			return fmt.Errorf("predicate fa==1 evaluated to %v but the read of the same transaction returns fa=%q", resp.Succeeded, a)
+		}
+		return nil
+	}
 	readOnce := func() (vals [][]byte, err error) {
+		if c.Predicates {
+			if err := predicateRead(); err != nil {
+				return nil, err
+			}
+		}
 		if c.ReadTxn {
 			req := &regattapb.TxnRequest{Table: []byte("t")}
 			for k := 0; k < c.Keys; k++ {
@@ -264,7 +328,7 @@ func runAtomic(c AtomicCase, o *vt.Obs) *vt.Failure {
 			}
 			return vals, nil
 		}
-		resp, err := r.Range(&regattapb.RequestOp_Range{Key: []byte("g"), RangeEnd: []byte("h")})
+		resp, err := r.Range(&regattapb.RequestOp_Range{Key: []byte("g"), RangeEnd: []byte("gz")})
 		if err != nil {
 			return nil, err
 		}
@@ -337,6 +401,9 @@ func runAtomic(c AtomicCase, o *vt.Obs) *vt.Failure {
 	o.LabelN("reader-observations", observations)
 	if len(seen) >= 2 {
 		o.Label("readers-saw>=2-distinct-stamps")
+	}
+	if c.Predicates {
+		o.Label("readonly-txn-with-predicates-under-concurrent-writes")
 	}
 	o.NonTrivial = len(seen) >= 2
 	o.Describe = func() string {
